@@ -330,7 +330,19 @@ def run_host_case(case):
             bystander = lcd
             continue
         state = list(lcd.animations.values())[-1]
+        if rows > 1 and r.random() < 0.35:
+            # a second animation on ANOTHER row of the same display, typically one that has nothing to move (empty text, or a text that
+            # fills the row, looping): it must not disturb the first one
+            row2 = r.choice([q for q in range(rows) if q != row])
+            st2 = r.choice(["bounce", "typewriter", "bounce", "blink", "scroll"])
+            tx2 = r.choice(["", text_of(r, cols)[:cols].ljust(cols, "x"), "ab"])
+            try:
+                lcd.animate(st2, row2, tx2, speed_ms=r.choice([0, 1, 7]), loop=r.random() < 0.8)
+            except Exception as e:  # noqa: BLE001
+                problems.append(("host-animate-raises", f"second animate({st2}, row {row2}, {tx2!r}) raised {type(e).__name__}: {e}"))
+            other = {q: v for q, v in other.items() if q != row2}
         B = bound(len(text), cols)
+        due_ticks = 0
         now = r.choice([0, 1, 5, 1000])
         steps = 0
         last_step_t = None
@@ -349,6 +361,8 @@ def run_host_case(case):
                 now = 1
             before = lcd.buffer[row]
             before_tick = state.last_tick
+            if state.active and (speed == 0 or last_step_t is None or now - last_step_t >= speed):
+                due_ticks += 1
             try:
                 lcd.tick(now)
             except PostBroken:
@@ -386,6 +400,8 @@ def run_host_case(case):
                 break
         if loop and not state.active:
             problems.append(("host-looping-stopped", f"{label}: looping animation became inactive"))
+        if not loop and state.active and due_ticks > B + 5:
+            problems.append(("host-non-looping-never-finished", f"{label}: still active after {due_ticks} ticks that were due (bound {B} steps), {steps} steps seen"))
         bystander = lcd
     return {"problems": problems[:6], "ticks": ticks, "evals": evals_global["n"]}
 
